@@ -105,7 +105,11 @@ impl NetworkAddress {
     pub fn from_four_words(words: &str) -> Result<Self> {
         let enc = FourWordAdaptiveEncoder::new()?;
         let normalized = words.replace('-', " ");
-        let decoded = enc.decode(&normalized)?; // returns a normalized address string
+        // The decoder takes lengths and shift amounts from the words themselves and can
+        // panic on word sequences no encoder produced; report those as errors too.
+        let decoded =
+            std::panic::catch_unwind(std::panic::AssertUnwindSafe(|| enc.decode(&normalized)))
+                .map_err(|_| anyhow!("Invalid four-word address: {words}"))??; // a normalized address string
         // The codec uses port 65535 as its "no port" marker and omits it from the
         // decoded text, so a bare IP address stands for that port.
         let socket_addr: SocketAddr = match decoded.parse() {
